@@ -109,6 +109,14 @@ pub fn enumerate(prog: &Program, weak_sc: bool, strong_rs: bool, budget: u64) ->
 /// (a SeqCst load never reads a SeqCst store older than the newest executed one) by that order,
 /// so it can only produce such executions (recorded finding F12).
 pub fn enumerate_opt(prog: &Program, weak_sc: bool, strong_rs: bool, op_fences: bool, budget: u64) -> AxResult {
+    enumerate_loose(prog, weak_sc, strong_rs, op_fences, 0, budget)
+}
+
+/// `loose`: bit mask of locations whose modification order is left unconstrained (no coherence, no
+/// RMW atomicity on them; they still transfer synchronisation through reads-from). Used to bound
+/// what the recorded modification-order defects (F7a/F7b) can explain: an outcome that is forbidden
+/// even with those locations loose is a different violation.
+pub fn enumerate_loose(prog: &Program, weak_sc: bool, strong_rs: bool, op_fences: bool, loose: u32, budget: u64) -> AxResult {
     let mut evs: Vec<Ev> = vec![];
     let nlocs = prog.n_atomics();
     for l in 0..nlocs {
@@ -328,6 +336,9 @@ pub fn enumerate_opt(prog: &Program, weak_sc: bool, strong_rs: bool, op_fences: 
                         let seq: Vec<usize> = std::iter::once(l).chain(perms[l][pidx[l]].iter().cloned()).collect();
                         for a in 0..seq.len() {
                             pos[seq[a]] = a;
+                            if loose & (1 << l) != 0 {
+                                continue;
+                            }
                             for b in a + 1..seq.len() {
                                 mo[seq[a]] |= 1 << seq[b];
                             }
@@ -335,7 +346,7 @@ pub fn enumerate_opt(prog: &Program, weak_sc: bool, strong_rs: bool, op_fences: 
                     }
                     // atomicity
                     for i in 0..n {
-                        if kind[i] == K::U && evs[i].th >= 0 {
+                        if kind[i] == K::U && evs[i].th >= 0 && loose & (1 << evs[i].loc.unwrap_or(0)) == 0 {
                             let w = rf_src[i];
                             if pos[w] + 1 != pos[i] {
                                 break 'thismo;
